@@ -14,7 +14,7 @@ LANE = os.environ["LANE"]
 WT = os.environ.get("HWT", "/tmp/mut/HARMLESS")
 OUT = sys.argv[1]
 only = sys.argv[2:]
-IDS = ["C%02d" % i for i in range(1, 21)]
+IDS = os.environ.get("CHECKS", "").split() or ["C%02d" % i for i in range(1, 21)]      # CHECKS="C03 C05": only these
 head = subprocess.run(["git", "-C", "/repo", "rev-parse", "HEAD"], stdout=subprocess.PIPE, text=True).stdout.strip()
 if not os.path.isdir(WT):
     subprocess.run(["git", "-C", "/repo", "worktree", "add", "--detach", WT, "HEAD"], check=True, stdout=subprocess.DEVNULL)
